@@ -2,6 +2,10 @@ import ThriftVerif.Props.C03
 #print axioms Props.C03.grammar_wf
 #print axioms Props.C03.peg_total
 #print axioms Props.C03.parse_total
+#print axioms Props.C03.grammar_captures
+#print axioms Props.C03.tree_conforms
+#print axioms Props.C03.tree_in_bounds
+#print axioms Props.C03.walker_no_panic
 #print axioms Props.C03.field_ids
 #print axioms Props.C03.field_ids_written
 #print axioms Props.C03.enum_values
